@@ -3,6 +3,7 @@ package main
 // Evaluation of specification expressions in a symbolic state.
 
 import (
+	"sort"
 	"fmt"
 	"go/constant"
 	"go/token"
@@ -96,6 +97,97 @@ func (e *SEnv) expandPred(p *PredSpec, sx *SX, label string) []part {
 		e.fail(sx, "predicate recursion")
 		return nil
 	}
+	var args []Val
+	for _, a := range sx.Args {
+		args = append(args, e.eval(a))
+	}
+	if p.Opaque && !(e.x.spec != nil && e.x.spec.Reveals[p.Name]) {
+		return e.opaquePred(p, args, label)
+	}
+	return e.expandWith(p, args, label)
+}
+
+// opaquePred renders the application of an opaque predicate as an uninterpreted function of
+// its arguments and of the heap components its definition reads (DESIGN.md 12.7): functions
+// that do not reveal the predicate can pass it on, but neither use nor establish its content.
+func (e *SEnv) opaquePred(p *PredSpec, args []Val, label string) []part {
+	var tags []string
+	rel := false
+	for _, c := range p.Clauses {
+		if c.relevant(e.x.prop) {
+			rel = true
+			for _, t := range c.Tags {
+				if !hasTag(tags, t) {
+					tags = append(tags, t)
+				}
+			}
+		}
+	}
+	if !rel {
+		return nil
+	}
+	sub := *e
+	sub.st = e.st.fork()
+	n0 := len(e.x.errs)
+	var body strings.Builder
+	// the definition is evaluated on placeholders: only the heap components the body itself
+	// reads count, not those mentioned by the actual arguments
+	var ph []Val
+	for i, a := range args {
+		b := a
+		b.T = fmt.Sprintf("oparg%d", i)
+		ph = append(ph, b)
+	}
+	for _, q := range sub.expandWith(p, ph, "") {
+		body.WriteString(q.term)
+		body.WriteString(" ")
+	}
+	if len(e.x.errs) > n0 {
+		return nil
+	}
+	bt := body.String()
+	var names []string
+	for name := range sub.st.heap {
+		names = append(names, name)
+	}
+	sort.Strings(names)
+	var ts, sorts []string
+	for _, a := range args {
+		ts = append(ts, a.T)
+		sorts = append(sorts, a.S)
+	}
+	for _, name := range names {
+		v := sub.st.heap[name]
+		if containsTerm(bt, v.T) {
+			ts = append(ts, v.T)
+			sorts = append(sorts, v.S)
+		}
+	}
+	fn := "op_" + p.Name + "_" + sane(strings.Join(sorts, "_"))
+	e.x.declare(fn, "DFUN ("+strings.Join(sorts, " ")+") Bool")
+	l := p.Name
+	if label != "" {
+		l = label + "/" + l
+	}
+	return []part{{app(fn, ts...), l, tags}}
+}
+
+// containsTerm: t occurs in s as a whole term (not as a prefix of a longer symbol).
+func containsTerm(s, t string) bool {
+	for i := 0; ; {
+		j := strings.Index(s[i:], t)
+		if j < 0 {
+			return false
+		}
+		k := i + j + len(t)
+		if k >= len(s) || !(s[k] == '!' || s[k] == '_' || (s[k] >= '0' && s[k] <= '9') || (s[k] >= 'a' && s[k] <= 'z') || (s[k] >= 'A' && s[k] <= 'Z')) {
+			return true
+		}
+		i = i + j + 1
+	}
+}
+
+func (e *SEnv) expandWith(p *PredSpec, args []Val, label string) []part {
 	sub := *e
 	sub.depth++
 	sub.binds = map[string]Val{}
@@ -105,8 +197,8 @@ func (e *SEnv) expandPred(p *PredSpec, sx *SX, label string) []part {
 	}
 	sub.own = false
 	sub.bound = e.bound
-	for i, a := range sx.Args {
-		sub.binds[p.Params[i]] = e.eval(a)
+	for i, a := range args {
+		sub.binds[p.Params[i]] = a
 	}
 	// ghost-style globals remain visible through st
 	var out []part
